@@ -156,21 +156,25 @@ func (s *CacheSnap) Equal(o *CacheSnap) bool {
 
 // Obs is what one request showed at the API boundary.
 type Obs struct {
-	Input       string     `json:"input"`
-	Cont        bool       `json:"cont"`
-	ExecErr     string     `json:"exec_err,omitempty"`
-	Flushed     bool       `json:"flushed"`
-	FlushErr    string     `json:"flush_err,omitempty"`
-	FlushN      int        `json:"-"`
-	FinishErr   string     `json:"finish_err,omitempty"`
-	Out         string     `json:"out"`
-	Panic       string     `json:"panic,omitempty"`
-	PanicSig    string     `json:"-"`
-	Events      []Event    `json:"-"`
-	ExecEvents  []Event    `json:"-"`
-	FlushEvents []Event    `json:"-"`
-	State       *StateSnap `json:"state,omitempty"`
-	Cache       *CacheSnap `json:"cache,omitempty"`
+	Input          string     `json:"input"`
+	Cont           bool       `json:"cont"`
+	ExecErr        string     `json:"exec_err,omitempty"`
+	Flushed        bool       `json:"flushed"`
+	FlushErr       string     `json:"flush_err,omitempty"`
+	FlushN         int        `json:"-"`
+	FinishErr      string     `json:"finish_err,omitempty"`
+	Out            string     `json:"out"`
+	Panic          string     `json:"panic,omitempty"`
+	PanicSig       string     `json:"-"`
+	Events         []Event    `json:"-"`
+	ExecEvents     []Event    `json:"-"`
+	FlushEvents    []Event    `json:"-"`
+	State          *StateSnap `json:"state,omitempty"`
+	Cache          *CacheSnap `json:"cache,omitempty"`
+	PreFlushed     bool       `json:"-"`
+	PreFlushErr    string     `json:"pre_flush_err,omitempty"`
+	PreFlushOut    string     `json:"pre_flush_out,omitempty"`
+	PreFlushEvents []Event    `json:"-"`
 	// Stored: snapshot decoded from the store through a fresh handle (persisted driver only)
 	StoredState *StateSnap `json:"-"`
 	StoredCache *CacheSnap `json:"-"`
@@ -278,7 +282,9 @@ type LongLived struct {
 	En  *engine.DefaultEngine
 	// FlushAfterError: call Flush even when Exec returned an error (C17)
 	FlushAfterError bool
-	dead            bool
+	// PreFlush: call Flush before the very first Exec (C17: output asked before anything was executed)
+	PreFlush bool
+	nreq     int
 }
 
 func NewLongLived(a *App, cfg Config) *LongLived {
@@ -296,7 +302,18 @@ func (d *LongLived) Request(input []byte) *Obs {
 	o := &Obs{Input: string(input)}
 	ctx := context.Background()
 	d.Res.Take()
+	d.nreq++
 	pv, stack := vk.Guard(func() {
+		if d.PreFlush && d.nreq == 1 {
+			var buf bytes.Buffer
+			_, ferr := d.En.Flush(ctx, &buf)
+			o.PreFlushed = true
+			o.PreFlushOut = buf.String()
+			if ferr != nil {
+				o.PreFlushErr = ferr.Error()
+			}
+			o.PreFlushEvents = d.Res.Take()
+		}
 		cont, err := d.En.Exec(ctx, input)
 		o.Cont = cont
 		if err != nil {
@@ -338,6 +355,8 @@ type PerRequest struct {
 	Res             *RecRes
 	B               *Backend
 	FlushAfterError bool
+	// PreFlush: call Flush on the fresh engine before Exec, every request
+	PreFlush bool
 	// SkipStoredRead: do not re-read the snapshot through a fresh handle after each request
 	SkipStoredRead bool
 	// BeforeFinish, if set, is called between Flush and Finish (C12 markers)
@@ -362,6 +381,16 @@ func (d *PerRequest) Request(input []byte) *Obs {
 	pv, stack := vk.Guard(func() {
 		pe = persist.NewPersister(store)
 		en := engine.NewEngine(d.Cfg.Engine(), d.Res).WithPersister(pe)
+		if d.PreFlush {
+			var buf bytes.Buffer
+			_, ferr := en.Flush(ctx, &buf)
+			o.PreFlushed = true
+			o.PreFlushOut = buf.String()
+			if ferr != nil {
+				o.PreFlushErr = ferr.Error()
+			}
+			o.PreFlushEvents = d.Res.Take()
+		}
 		cont, err := en.Exec(ctx, input)
 		o.Cont = cont
 		if err != nil {
